@@ -626,7 +626,9 @@ reg("C10", [eng_control_random(M.mon_namespace, {"CT", "CS"}, always=True), eng_
                "per operation the exact status (in the server's check order) and effect, NOT_FOUND on absent names, no "
                "effect on failure, read-back of stored attributes. " + SEQ_NOTE,
     level_note="Linearizability under truly concurrent requests is argued from the single lock-protected step per "
-               "operation (DESIGN 7/C10) and not yet a Coq theorem.")
+               "operation (DESIGN 7/C10); proved in the actor model only for the two-step operation: a CreateSubscription "
+               "that has returned is observed by the topic at every later moment (C10c_create_observed); racing creates / "
+               "deletes of one name are exercised by the racing-namespace stream.")
 
 reg("C11", [eng_control_random(M.mon_namespace, {"DT", "DS"}, always=True),
             eng_data_random(M.mon_namespace, {"DS", "DT"}, relevant=CTL_OPS | DATA_OPS, tag="data-random", always=True),
@@ -721,7 +723,11 @@ reg("C01", [eng_data_random(mon_c01, {"PUB"}, streams=True, tag="data-stream-dra
                "live; over any history a subscription holds everything posted to it except what an Ack of a live lease "
                "removed; expiry requeues everything held; a pull on a non-empty queue delivers; nothing foreign is ever "
                "delivered. " + SEQ_NOTE,
-    level_note="The concurrent reading (publish racing create/delete, mailbox FIFO) is not yet a Coq theorem.")
+    level_note="Concurrent reading: the actor model proves that a subscription whose CreateSubscription has returned is "
+               "attached at every later reachable state until it is marked deleted (C01c_created_is_attached), and that a "
+               "Publish posts to the attachment list the topic has when it handles it (model structure); message contents "
+               "are abstract there, so 'no loss under concurrency' with concrete messages rests on the sequential theorems "
+               "plus the concurrent-publish stream of C08 and the drain monitor.")
 
 
 # ================================================================= C19 flow control (scheduled real threads)
